@@ -1,9 +1,9 @@
-\* thorough: every history of <= 5 statements over OpsTiny incl. the backward reading
+\* thorough: every history of <= 5 statements over OpsTiny, without the backward reading
 CONSTANTS Codes <- MCCodes
  FileTabs <- MCFileTabs
  Ops <- OpsTiny
  MaxLen = 5
- CheckBackward = TRUE
+ CheckBackward = FALSE
  CaseModes = {FALSE, TRUE}
  Dev = {}
  DevSourceChecked = TRUE
